@@ -125,6 +125,9 @@ func scalarBoundaries(k string, clean bool) []*Val {
 		}
 		if !clean {
 			for _, f := range nonFinite {
+				if k == "float32" {
+					f = float64(float32(f)) // the exact float64 image of the float32 (NaN: 0x7FF8000000000000)
+				}
 				r = append(r, fv(f))
 			}
 		}
@@ -230,6 +233,9 @@ func mapKeys(ks *Shape, vs []*Val) []*Val {
 			if f != f {
 				continue
 			}
+			if f == 0 {
+				v = fv(0) // Go identifies -0 and +0 as keys; the canonical listing uses +0
+			}
 		}
 		dup := false
 		for _, u := range r {
@@ -312,6 +318,7 @@ func corpus() []*Case {
 		{S: ptrTo(sliceOf(sh("int"))), V: pv(nilv())},
 		{S: sh("float64"), V: fv(math.Inf(1))},
 		{S: sh("float64"), V: fv(math.NaN())},
+		{S: sh("float32"), V: fv(float64(float32(math.NaN())))},
 		{S: sh("float32"), V: fv(math.Inf(-1))},
 		// fixed: [nil] into []interface{} faulted, nil in map[string]interface{} came back as *UndefValue
 		{S: sliceOf(sh("iface")), V: lv(dv(sh("int64"), ii(1)), nilv(), dv(sh("string"), sv("a")), dv(sh("float64"), fv(1.5)), dv(sh("bool"), bv(true)))},
@@ -439,7 +446,7 @@ func randFloat(r *lib.Rng, k string, m genMode) *Val {
 		}
 		if f != f {
 			// only the canonical quiet NaN (the hardware may quieten others on float32 <-> float64 conversion)
-			f = math.NaN()
+			f = float64(float32(math.NaN()))
 		}
 		if m.clean && (f != f || math.IsInf(f, 0)) {
 			continue
@@ -545,6 +552,10 @@ func randCase(r *lib.Rng, family string) *Case {
 		}
 	default:
 		s = randShape(r, 1+r.Intn(3), m, r.Chance(1, 3), 'W')
+		for s.K == "iface" {
+			// a value handed to px.Wrap is an interface{} already: the static type interface{} cannot occur at the top
+			s = randShape(r, 1+r.Intn(3), m, r.Chance(1, 3), 'W')
+		}
 	}
 	cs := &Case{S: s, V: randVal(r, s, m, 0), Family: family}
 	if family == "struct" && cs.V.Nil {
